@@ -9,6 +9,8 @@ rows = []
 for d in sorted(glob.glob(os.path.join(HERE, 'seeded', 'C*-mut*'))):
     name = os.path.basename(d)
     pid, mut = name.split('-')
+    if not (os.path.exists(os.path.join(d, 'author_meta.json')) and os.path.exists(os.path.join(d, 'confirm.json'))):
+        continue
     am = json.load(open(os.path.join(d, 'author_meta.json')))
     cf = json.load(open(os.path.join(d, 'confirm.json')))
     det = {}
@@ -36,8 +38,18 @@ for d in sorted(glob.glob(os.path.join(HERE, 'seeded', 'C*-mut*'))):
     }
     json.dump(meta, open(os.path.join(d, 'meta.json'), 'w'), indent=1)
     q = det.get('quick', {})
-    caught = 'yes' if q.get('exit') == 1 and q.get('violation_lines', 0) > 0 else ('harness error (exit 3)' if q.get('exit') == 3 else 'no')
-    ob = (q.get('first_violated_obligation') or '').replace('violated obligation:', '').strip()
+    cross = {}
+    for f in glob.glob(os.path.join(d, 'detection_quick_by_*.json')):
+        try:
+            cross[os.path.basename(f)[len('detection_quick_by_'):-5]] = json.load(open(f))
+        except json.JSONDecodeError:
+            pass
+    meta['detection_by_other_checks'] = {k: {'exit': v.get('exit'), 'violation_lines': v.get('violation_lines'), 'first_violated_obligation': v.get('first_violated_obligation')} for k, v in cross.items()}
+    json.dump(meta, open(os.path.join(d, 'meta.json'), 'w'), indent=1)
+    by = sorted(k for k, v in cross.items() if v.get('exit') == 1 and v.get('violation_lines', 0) > 0)
+    caught = 'yes' if q.get('exit') == 1 and q.get('violation_lines', 0) > 0 else (('by ' + ', '.join(by)) if by else ('harness error (exit 3)' if q.get('exit') == 3 else 'no'))
+
+    ob = (q.get('first_violated_obligation') or (cross[by[0]].get('first_violated_obligation') if by else '') or '').replace('violated obligation:', '').strip()
     ob = ob.split('  config=')[0][:110]
     rows.append(f'| {name} | {(am.get("summary") or "")[:150].replace("|", "/")}… | {caught} | {ob.replace("|", "/")} |')
 print('| seed | change (abridged) | caught by its property\'s quick check | first violated obligation |')
